@@ -319,6 +319,10 @@ func analyze(cl *cluster) *analysis {
 		if b == nil {
 			continue
 		}
+		if rec.prepsLostFrom != 0 && h >= rec.prepsLostFrom {
+			a.obs["blocks_not_at_view0_or_ambiguous"]++
+			continue
+		}
 		p := int(b.PrimaryIndex)
 		var hashes []util.Uint256
 		var sysFee int64
